@@ -90,6 +90,11 @@ type Driver struct {
 	// fault (recorded finding D14: the delete is applied, the shrink is not) - from
 	// then on the tree may be taller than canonical
 	AfterFailedShrink bool
+	// PersistFaults: some persists run with one failing Store; an error is fine (the
+	// persist is simply repeated), but a root returned as a success must be loadable
+	PersistFaults bool
+	// ReloadClause: if set, a just-persisted root that does not load is a violation of this clause
+	ReloadClause string
 	lowTarget         int
 	hiTarget          int
 	growing           bool
@@ -450,6 +455,34 @@ func (d *Driver) OpCloneSwitch() {
 
 // Persist calls MakeRoot and hands the root to the embedding monitor.
 func (d *Driver) Persist() *mast.Root {
+	if d.PersistFaults && d.E.Store != nil && d.R.Chance(1, 5) {
+		k := d.R.Range(1, 6)
+		n := 0
+		d.E.Store.FailStore = func(int, string) error {
+			n++
+			if n == k {
+				return errInjectedLoad
+			}
+			return nil
+		}
+		root, err := d.T.MakeRoot(d.E.Ctx)
+		d.E.Store.FailStore = nil
+		d.C.Obs("persists_with_failing_store", 1)
+		if err == nil {
+			if n >= k {
+				d.C.Obs("persists_succeeding_despite_failed_store", 1)
+			}
+			d.log("persist (one Store failing: %v) reported success", n >= k)
+			d.HadPersist = true
+			d.LastRoot = root
+			d.C.Obs("op_persist", 1)
+			if d.OnRoot != nil {
+				d.OnRoot(d, root)
+			}
+			return root
+		}
+		d.log("persist with Store #%d failing -> error, repeated", k)
+	}
 	root, err := d.T.MakeRoot(d.E.Ctx)
 	if err != nil {
 		d.fail("makeroot", nil, "MakeRoot failed on a healthy store: %v", err)
@@ -497,7 +530,15 @@ func (d *Driver) OpReload() {
 		}
 	}
 	t, err := d.E.Load(r2)
+	if err == nil && d.ReloadClause != "" { // and completely, not just its top node
+		_, _, err = kinds.Dump(d.E.Ctx, t)
+	}
 	if err != nil {
+		if d.ReloadClause != "" {
+			d.Failed = true
+			d.C.Violation(d.ReloadClause, map[string]string{"format": string(d.E.Format), "codec": d.E.Codec}, "MakeRoot reported success with root %s, but that root does not load: %v | cfg{%s} tail=%v", rootStr(root), err, d.E.Cfg, tailOf(d.Hist, 12))
+			return
+		}
 		d.fail("reload", nil, "LoadMast of a just-persisted root failed: %v", err)
 		return
 	}
